@@ -287,6 +287,14 @@ func rejectedPieces(r *rand.Rand, known, hoisted []string, uniq *int) []N {
 		first = rej("for " + g + " := 0; " + g + " < 1; " + g + "++ {\nundefined_name_q\n}")
 		return []N{first, {"kind": "code", "ast": []any{ast.ExprStmt(ast.Call(ast.Id("type"), ast.Id(g)))}, "hoist": []any{}, "declares": false,
 			"src": "type(" + g + ")"}}
+	case k == 9 && len(hoisted)+len(known) > 0:
+		// an input that is exactly ONE statement: a function declaration whose name an earlier input declared (as a
+		// function or as a variable) - refused like the same declaration inside a longer input
+		names := append(append([]string{}, hoisted...), known...)
+		h := names[r.Intn(len(names))]
+		first = rej("func " + h + "() {\nreturn 2\n}")
+		return []N{first, {"kind": "code", "ast": []any{ast.ExprStmt(ast.Call(ast.Id("type"), ast.Id(h)))}, "hoist": []any{}, "declares": false,
+			"src": "type(" + h + ")"}}
 	case k == 7:
 		// refused because of a function HEADER (the compiler has already entered the function): a parameter
 		// without default after one with, a default that is not a literal, a parameter name twice
